@@ -39,6 +39,7 @@ import threading
 
 sys.path.insert(0, os.path.dirname(os.path.abspath(__file__)))
 import boot  # noqa: E402
+import c04_errorlog  # noqa: E402
 import common  # noqa: E402
 import progterms  # noqa: E402
 import tlc  # noqa: E402
@@ -256,10 +257,15 @@ def main():
   if a.replay:
     with open(a.replay) as f:
       case = json.load(f)["case"]
+    if "errorlog" in case:      # a violation of the error-log family (ErrorLog.tla)
+      c04_errorlog.replay_case(run, case)
+      return run.finish()
     jobs = [case["job"]]
     models = {}
   else:
     import c01
+    # 0. the error-log family (ErrorLog.tla on the real errors.ErrorLog) runs beside the sessions
+    errorlog = c04_errorlog.start(run.seed, thorough)
     # 1. the models: history spaces, program generators (JVMs side by side)
     fm = jvm.submit(run_model)
     nprog = 240 if thorough else 45
@@ -451,6 +457,8 @@ def main():
     un = sum(s["pyi"].count("Union[") for s in results[0] if s["proc"] == "h1")
     common.require(un >= 120, "vacuity: only %d unions printed by the seeds session" % un)
     run.put("unions_printed_per_process", un)
+    # "reported errors are unique and sorted by position" on the data structure, for all histories
+    c04_errorlog.run_family(run, thorough, errorlog)
 
   for rb in tlc.parse_cases(rr.out, "BAD"):
     job = jobs[rb["i"] - 1]
